@@ -33,7 +33,7 @@ from syne_tune.results_callback import StoreResultsCallback
 from syne_tune.tuner_callback import TunerCallback
 from syne_tune.util import experiment_path
 
-OBS_ACTIONS = {"T_Fetch", "T_Stop", "T_Pause", "T_StopAll"}
+OBS_ACTIONS = {"T_Fetch", "T_Stop", "T_Pause", "T_StopAll", "T_Busy"}
 
 
 class Script:
@@ -193,7 +193,11 @@ class ScriptedBackend(TrialBackend):
             self.ckpt[trial_id] = "deleted"
 
     def busy_trial_ids(self):
-        return [(t, Status.in_progress) for t, w in self.workers.items() if self._status(t) == Status.in_progress]
+        # only called by the tuner with start_jobs_without_delay = False: an observation of the processes
+        self._observe()
+        r = [(t, Status.in_progress) for t, w in self.workers.items() if self._status(t) == Status.in_progress]
+        self.log.append({"a": "Busy", "S": [t for t, _ in r]})
+        return r
 
     def stdout(self, trial_id: int) -> List[str]:
         return []
@@ -254,6 +258,7 @@ class ScriptedScheduler(TrialScheduler):
         self.script, self.kind = script, kind
         self.n_sug = 0
         self.n_res: Dict[int, int] = {}
+        self.paused, self.stopped = set(), set()
         self._trial_decisions_stack = collections.deque()    # same name and discipline as PopulationBasedTraining
 
     def _suggest(self, trial_id: int) -> Optional[TrialSuggestion]:
@@ -262,13 +267,19 @@ class ScriptedScheduler(TrialScheduler):
         s = self.script.suggestions[k] if k < len(self.script.suggestions) else ("new", -1)
         if s[0] == "none":
             return None
-        if s[0] == "resume":
+        # The real run may leave the scripted behaviour (results of one poll are ordered by the workers' time stamps,
+        # worker events that are not enabled are skipped).  The scripted scheduler stays a LEGAL scheduler whatever
+        # happens: it resumes only a trial it has paused, and clones only from a trial it knows and has not stopped.
+        if s[0] == "resume" and s[1] in self.paused:
+            self.paused.discard(s[1])
             # every second resume changes the configuration of the trial (as promotion-type Hyperband does)
             new_cfg = {"x": 1000 + k, "epochs": 99} if k % 2 == 0 else None
             return TrialSuggestion.resume_suggestion(trial_id=s[1], config=new_cfg)
-        src = s[1] if len(s) > 1 and s[1] is not None and s[1] >= 0 else None
+        src = s[1] if s[0] == "new" and len(s) > 1 and s[1] is not None and s[1] >= 0 else None
         if src is not None and self._trial_decisions_stack:
             self._trial_decisions_stack.pop()
+        if src is not None and (src >= trial_id or src in self.stopped):
+            src = None
         return TrialSuggestion.start_suggestion({"x": trial_id, "epochs": 99}, checkpoint_trial_id=src)
 
     def on_trial_result(self, trial, result) -> str:
@@ -279,8 +290,17 @@ class ScriptedScheduler(TrialScheduler):
         d = ds[k] if k < len(ds) else SchedulerDecision.CONTINUE
         if "@" in d:
             d, src = d.split("@")
-            self._trial_decisions_stack.append((int(src), None))
+            if int(src) != t and int(src) not in self.stopped:
+                self._trial_decisions_stack.append((int(src), None))
+        if d == SchedulerDecision.STOP:
+            self.stopped.add(t)
+        elif d == SchedulerDecision.PAUSE:
+            self.paused.add(t)
         return d
+
+    def on_trial_error(self, trial):
+        self.paused.discard(trial.trial_id)
+        self.stopped.add(trial.trial_id)
 
     def metric_names(self):
         return ["m"]
@@ -400,6 +420,7 @@ def run_tuner(conf: dict, script: Script, scheduler=None, stop_criterion=None, v
         max_failures=conf.get("maxfail", 1), tuner_name=name, suffix_tuner_name=False,
         asynchronous_scheduling=conf.get("async", True),
         wait_trial_completion_when_stopping=conf.get("wait", False),
+        start_jobs_without_delay=conf.get("sjwd", True),
         callbacks=[store, Recorder(log)] + list(extra_callbacks), save_tuner=False,
     )
     o_stop = tuner._stop_condition
@@ -448,7 +469,7 @@ def trace_conf(conf: dict) -> dict:
          "kind": conf.get("kind", "stop"), "async": bool(conf.get("async", True)),
          "wait": bool(conf.get("wait", False)), "del": bool(conf.get("del", False)), "failb": 99, "extb": 99,
          "ckind": conf.get("ckind", "script"), "k": conf.get("k", 0), "emptyexit": True, "mayexhaust": True,
-         "r3": False, "r13": False, "also": bool(conf.get("also", False)), "sim": bool(conf.get("sim", False)), "r8": False}
+         "r3": False, "r13": False, "also": bool(conf.get("also", False)), "sim": bool(conf.get("sim", False)), "r8": False, "sjwd": bool(conf.get("sjwd", True))}
     return c
 
 
@@ -457,7 +478,7 @@ TRACE_FIELDS = {
     "Fetch": ("n", "dead"), "Result": ("t", "r", "i", "d"), "StopTrial": ("t",), "PauseTrial": ("t",),
     "Remove": ("t",), "Complete": ("t",), "Error": ("t",), "CbComplete": ("t",), "Start": ("t", "from"),
     "Add": ("t",), "Resume": ("t",), "Delete": ("t",), "Exhausted": (), "StopCrit": ("b",), "Iter": (),
-    "StopAll": ("S",), "End": ("kind", "named", "cnt"), "Removable": ("S",), "Queue": ("s",),
+    "StopAll": ("S",), "End": ("kind", "named", "cnt"), "Removable": ("S",), "Queue": ("s",), "Busy": ("S",),
 }
 
 
